@@ -97,6 +97,7 @@ def evalCond (w : World τ) : Nat → CondId → Bool
     | .done _ v _ => v
     | .notDone d => !(evalCond w fuel d)
     | .cmp x op v => cmpOp op (w.tracked.getD x default).value v
+    | .cmp2 x op y => cmpOp op (w.tracked.getD x default).value (w.tracked.getD y default).value
     | .resCmp r op amounts => vecCmp op (w.res.getD r default).levels amounts
     | .delay _ => true
     | .plain => true
@@ -181,6 +182,7 @@ def invertNorm : CExpr τ → Option (CExpr τ)
   | .any cs => (invertNorms cs).map .all
   | .tracked x op v => some (.tracked x (match op with | 0 => 4 | 4 => 0 | 5 => 1 | 1 => 5 | 2 => 3 | _ => 2) v)
   | .resLevel r op v => some (.resLevel r (match op with | 0 => 4 | 4 => 0 | 5 => 1 | 1 => 5 | 2 => 3 | _ => 2) v)
+  | .tracked2 x op y => some (.tracked2 x (match op with | 0 => 4 | 4 => 0 | 5 => 1 | 1 => 5 | 2 => 3 | _ => 2) y)
 def invertNorms : List (CExpr τ) → Option (List (CExpr τ))
   | [] => some []
   | c :: cs => (invertNorm c).bind (fun c' => (invertNorms cs).map (c' :: ·))
@@ -229,6 +231,11 @@ def buildNorm (w : World τ) : CExpr τ → Option (World τ × CondId)
     (lookup w.resNames r).map (fun rid =>
       let (w, c) := w.newCond (.resCmp rid op v)
       ({ w with res := w.res.modify rid (fun t => { t with listeners := t.listeners ++ [c] }) }, c))
+  | .tracked2 x op y =>
+    -- AsyncComparison.__init__: `right.__add_listener__(self)` then `left.__add_listener__(self)`
+    let (w, c) := w.newCond (.cmp2 x op y)
+    let w := { w with tracked := w.tracked.modify y (fun t => { t with listeners := t.listeners ++ [c] }) }
+    some ({ w with tracked := w.tracked.modify x (fun t => if t.listeners.contains c then t else { t with listeners := t.listeners ++ [c] }) }, c)
 def buildNorms (w : World τ) : List (CExpr τ) → Option (World τ × List CondId)
   | [] => some (w, [])
   | c :: cs => (buildNorm w c).bind (fun (w, i) => (buildNorms w cs).map (fun (w, is) => (w, i :: is)))
@@ -253,6 +260,7 @@ def evalSpec (w : World τ) : CExpr τ → Bool
   | .any cs => evalSpecAny w cs
   | .inv c => !(evalSpec w c)
   | .tracked x op v => cmpOp op (w.tracked.getD x default).value v
+  | .tracked2 x op y => cmpOp op (w.tracked.getD x default).value (w.tracked.getD y default).value
   | .resLevel r op v => match lookup w.resNames r with
     | some rid => vecCmp op (w.res.getD rid default).levels v
     | none => false
